@@ -73,13 +73,18 @@ impl<K: Clone + PartialEq + Eq + Hash + std::fmt::Debug + std::cmp::PartialOrd, 
         }
     }
 
-    /// Flush key/value pairs from wmap to rmap
-    pub(crate) fn commit_wmap(&self) -> Option<Vec<(K, AsyncLruCacheEntry<V>)>> {
+    /// Move the (populated) entry of `key` from wmap to rmap
+    ///
+    /// Only this one: the other entries in wmap are still being populated
+    /// by whoever put them there.  In rmap they would be handed out by
+    /// get() as valid, and if their load fails in the end, everybody who
+    /// got one works with an all-zero slice that has no place on disk.
+    pub(crate) fn commit_wmap(&self, key: &K) -> Option<Vec<(K, AsyncLruCacheEntry<V>)>> {
         let mut w = self.wmap.lock().unwrap();
         let mut r = self.rmap.write().unwrap();
         let mut vec = Vec::new();
 
-        let wlen = w.len();
+        let wlen = usize::from(w.contains_key(key));
 
         while r.len() + wlen > self.limit + vec.len() {
             let res = self.__pop_lru(&mut r);
@@ -107,8 +112,8 @@ impl<K: Clone + PartialEq + Eq + Hash + std::fmt::Debug + std::cmp::PartialOrd, 
             }
         }
 
-        for (key, value) in w.drain() {
-            r.insert(key, value);
+        if let Some(value) = w.remove(key) {
+            r.insert(key.clone(), value);
         }
 
         if vec.is_empty() {
